@@ -20,13 +20,14 @@ def parseState (v : List Int) : St :=
     gvol := g 7, time := 0, loopCount := g 8, sequence := g 9, st26 := g 10,
     f := { pbreak := g 11, jump := g 12, delay := g 13, jumpline := g 14, loopDest := g 15,
            loopParam := g 16, loopStart := g 17, loopCount := g 18, loopActiveNum := g 19,
-           jumpInPat := g 20, numRows := g 21, endPoint := g 22, rowdelay := g 23, rowdelaySet := g 24 } }
+           jumpInPat := g 20, numRows := g 21, endPoint := g 22, rowdelay := g 23, rowdelaySet := g 24 },
+    flags := g 25 }
 
 def showState (s : St) : String :=
   let f := s.f
   let l : List Int := [if s.playing then 1 else 0, s.ord, s.pos, s.row, s.frame, s.speed, s.bpm, s.gvol,
     s.loopCount, s.sequence, s.st26, f.pbreak, f.jump, f.delay, f.jumpline, f.loopDest, f.loopParam,
-    f.loopStart, f.loopCount, f.loopActiveNum, f.jumpInPat, f.numRows, f.endPoint, f.rowdelay, f.rowdelaySet]
+    f.loopStart, f.loopCount, f.loopActiveNum, f.jumpInPat, f.numRows, f.endPoint, f.rowdelay, f.rowdelaySet, s.flags]
   " ".intercalate (l.map toString)
 
 def showFrame (m : CMod) (r : FrameRes) : String :=
@@ -38,19 +39,27 @@ def showFrame (m : CMod) (r : FrameRes) : String :=
   s!"frame {r.rc}{mid} k {s.ord} {s.pos} {s.row} {s.frame} {s.sequence} {s.loopCount} {s.f.numRows} {s.f.endPoint}" ++
   s!" fi {fi.pos} {fi.pattern} {fi.row} {fi.numRows} {fi.frame} {fi.loopCount} {fi.sequence}"
 
-def applyOp (m : CMod) (s : St) (op : String) (arg : Int) : Option (Int × St) :=
+/-- result of a call: return value, post state, and (parameter calls only) whether the scan re-ran -/
+def applyOp (m : CMod) (s : St) (op : String) (arg extra extra2 : Int) : Option (Int × St × Option Bool) :=
+  let pos (r : Option (Int × St)) := r.map fun (a, b) => (a, b, none)
+  let par (r : ParamRes) : Option (Int × St × Option Bool) := some (r.ret, r.st, some r.rescan)
   match op with
-  | "set_position" => xmpSetPosition m s arg
-  | "next_position" => xmpNextPosition m s
-  | "prev_position" => xmpPrevPosition m s
-  | "set_row" => some (xmpSetRow m s arg)
-  | "seek_time" => xmpSeekTime m s arg
-  | "restart_module" => some (0, xmpRestart s)
-  | "stop_module" => some (0, xmpStop s)
-  | "start_player" => some (0, xmpStartPlayer m s)
-  | _ => some (0, s)
+  | "set_position" => pos (xmpSetPosition m s arg)
+  | "next_position" => pos (xmpNextPosition m s)
+  | "prev_position" => pos (xmpPrevPosition m s)
+  | "set_row" => pos (some (xmpSetRow m s arg))
+  | "seek_time" => pos (xmpSeekTime m s arg)
+  | "restart_module" => pos (some (0, xmpRestart s))
+  | "stop_module" => pos (some (0, xmpStop s))
+  | "start_player" => pos (some (0, xmpStartPlayer m s))
+  | "set_flags" => par (xmpSetFlags s arg)
+  | "set_cflags" => par (xmpSetCflags s arg extra)
+  | "set_mode" => par (xmpSetMode s arg extra (extra2 != 0))
+  | _ => pos (some (0, s))
 
-partial def loop (h : IO.FS.Stream) (m : CMod) (pre : St) : IO Unit := do
+/-- `op …` computes the call (prints ret / post / rescan), `frame` then renders the next frame with
+the module description in force at that moment (a rescan may have replaced it in between). -/
+partial def loop (h : IO.FS.Stream) (m : CMod) (pre : St) (post : Option St) : IO Unit := do
   let line ← h.getLine
   if line.isEmpty then return ()
   let ws := line.trimAscii.toString.splitOn " "
@@ -59,24 +68,35 @@ partial def loop (h : IO.FS.Stream) (m : CMod) (pre : St) : IO Unit := do
     let v := ints rest
     let g (i : Nat) : Int := v.getD i 0
     loop h { len := g 0, pat := g 1, rst := g 2, marker := g 3 != 0, protrack := g 4 != 0, lpReset := g 5 != 0,
-             numSeq := g 6, xxo := [], rows := [], ctl := [], seqs := [], info := [] } pre
-  | "xxo" :: rest => loop h { m with xxo := ints rest } pre
-  | "rows" :: rest => loop h { m with rows := ints rest } pre
-  | "ctl" :: rest => loop h { m with ctl := ints rest } pre
-  | "seq" :: rest => loop h { m with seqs := chunk4 (ints rest) } pre
-  | "info" :: rest => loop h { m with info := chunk5 (ints rest) } pre
-  | "pre" :: rest => loop h m (parseState (ints rest))
-  | ["op", name, arg] =>
-    match applyOp m pre name (arg.toInt?.getD 0) with
-    | none => IO.println "hang call"
-    | some (ret, post) =>
+             numSeq := g 6, xxo := [], rows := [], ctl := [], seqs := [], info := [] } pre post
+  | "xxo" :: rest => loop h { m with xxo := ints rest } pre post
+  | "rows" :: rest => loop h { m with rows := ints rest } pre post
+  | "ctl" :: rest => loop h { m with ctl := ints rest } pre post
+  | "seq" :: rest => loop h { m with seqs := chunk4 (ints rest) } pre post
+  | "info" :: rest => loop h { m with info := chunk5 (ints rest) } pre post
+  | "pre" :: rest => loop h m (parseState (ints rest)) none
+  | "op" :: name :: rest =>
+    let a := ints rest
+    match applyOp m pre name (a.getD 0 0) (a.getD 1 0) (a.getD 2 0) with
+    | none =>
+      IO.println "hang call"
+      loop h m pre none
+    | some (ret, st, rs) =>
       IO.println s!"ret {ret}"
-      IO.println s!"post {showState post}"
-      match playFrame m post with
+      IO.println s!"post {showState st}"
+      match rs with
+      | some b => IO.println s!"rescan {if b then 1 else 0}"
+      | none => pure ()
+      loop h m pre (some st)
+  | ["frame"] =>
+    match post with
+    | none => IO.println "hang frame"
+    | some st =>
+      match playFrame m st with
       | none => IO.println "hang frame"
       | some r => IO.println (showFrame m r)
-    loop h m pre
-  | _ => loop h m pre
+    loop h m pre post
+  | _ => loop h m pre post
 
 def main : IO Unit := do
-  loop (← IO.getStdin) { len := 0, pat := 0, xxo := [], rows := [], ctl := [], seqs := [], info := [] } {}
+  loop (← IO.getStdin) { len := 0, pat := 0, xxo := [], rows := [], ctl := [], seqs := [], info := [] } {} none
